@@ -155,7 +155,16 @@ def gen_case(rng):
         s = objs.rand_source(rng, "Circle") if rng.random() < 0.5 else rand_closed_polyline(rng)
         case["sources"] = [s]
     elif kind in ("flux_inside", "circ_magnet", "flux_cutting"):
-        case["sources"] = [objs.rand_source(rng, str(rng.choice(objs.MAGNETS)))]
+        s0 = objs.rand_source(rng, str(rng.choice(objs.MAGNETS)))
+        case["sources"] = [s0]
+        if rng.random() < 0.35:
+            # a twin listed FIRST: same body (same local geometry), other polarization, placed elsewhere; the
+            # surface / loop is still built around s0, now the later member of a vectorised group of equal bodies
+            tw = dict(s0)
+            tw["polarization"] = objs.rand_vec(rng)
+            tw["position"] = (np.array(s0["position"]) + 3.0 * objs.size_of(s0)).tolist()
+            case["sources"] = [s0, tw]
+            case["twin_first"] = True
     else:
         # (a single Triangle is an open charged sheet, not a magnet: its B is not solenoidal and the property
         #  does not list it)
@@ -184,6 +193,8 @@ def check_case(ctx, case):
     try:
         with quiet():
             srcs = [objs.build(x) for x in specs]
+            if case.get("twin_first"):
+                srcs = srcs[::-1]
         rot = R.from_quat(objs.rand_rot(rng, 1, "uniform")[0])
         expected = 0.0
         comp_dirs = np.random.default_rng(case["seed"] + 1).normal(size=(6, 3))
